@@ -371,6 +371,7 @@ class Model:
         from yatiml.introspection import class_subobjects
         from yatiml.util import is_abstract, is_string_like
         spec = self.by_name_spec[cls.__name__]
+        xt = '~'
         bases = [b.__name__ for b in cls.__bases__]
         ancestors = [b.__name__ for b in cls.__mro__[1:]]
         if issubclass(cls, enum.Enum):
@@ -383,6 +384,8 @@ class Model:
             kind = 'plain'
             argspec = inspect.getfullargspec(cls.__init__)
             args = [a for a in argspec.args if a != 'self']
+            if '_yatiml_extra' in argspec.annotations:
+                xt = ty_sexp_of_py(argspec.annotations['_yatiml_extra'], None)
             params = []
             for name, ty, req in class_subobjects(cls):
                 params.append('( {} {} {} {} )'.format(
@@ -397,10 +400,10 @@ class Model:
             sav = '( {} )'.format(' '.join(sav_wire(op) for op in spec['savorize']))
         ir = spec.get('init_raises')
         irw = '~' if ir is None else '( {} {} )'.format(hexs(ir[0]), N.scalar_sexp(ir[1]))
-        return '( class {} ( {} ) ( {} ) {} {} ( {} ) ( {} ) {} {} {} )'.format(
+        return '( class {} ( {} ) ( {} ) {} {} ( {} ) ( {} ) {} {} {} {} )'.format(
             hexs(cls.__name__), ' '.join(hexs(b) for b in bases), ' '.join(hexs(a) for a in ancestors),
             kind, 1 if is_abstract(cls) else 0, ' '.join(params), ' '.join(hexs(a) for a in args),
-            rec, sav, irw)
+            xt, rec, sav, irw)
 
     def env_wire(self, loader_cls, ext):
         # builtins such as `str` end up in the registry when they are the document type; they have
